@@ -861,6 +861,8 @@ class Executor:
             return ("model", norm)
         if re.match(r"^Iterator::\w+::next$", norm):
             return ("model", "Iterator::Iter::next")
+        if re.match(r"^Iterator::\w+::(nth|count)$", norm):
+            return ("model", "Iterator::Iter::" + norm.rsplit("::", 1)[1])
         if re.match(r"^Iterator::\w+::(rev|cloned|copied|enumerate)$", norm):
             return ("model", "Iterator::adaptor::" + norm.rsplit("::", 1)[1])
         if re.match(r"^Iterator::\w+::filter_map$", norm):
@@ -1490,18 +1492,14 @@ def m_into_iter(ex, state, frame, dest, args, ret_block, work, callee):
     raise Inconclusive("into_iter of %r" % (v,))
 
 
-@model("Iterator::Iter::next")
-def m_iter_next(ex, state, frame, dest, args, ret_block, work, callee):
-    r = args[0]
-    it = _val(ex, state, r)
+def iter_next_alts(ex, state, it):
+    """one `next()` on iterator value `it` in `state`: -> list of (state', Option value, iterator value afterwards).
+    `state` itself is consumed (one alternative reuses it); forks are clones."""
     if isinstance(it, IterL):
         if it.idx < len(it.items):
-            item = it.items[it.idx]
-            if isinstance(r, LRef):
-                ex.write_place(state, ex.frame_by_id(state, r.fid), r.place, IterL(it.items, it.idx + 1))
             # items of a local vector are yielded by reference: values are immutable here, pass them through
-            return _ret(ex, state, frame, dest, Agg("adt", "Option", "Some", [item]), ret_block)
-        return _ret(ex, state, frame, dest, Agg("adt", "Option", "None", []), ret_block)
+            return [(state, Agg("adt", "Option", "Some", [it.items[it.idx]]), IterL(it.items, it.idx + 1))]
+        return [(state, Agg("adt", "Option", "None", []), it)]
     if isinstance(it, IterS):
         n = ex.length(state, it.base)
         i = it.idx
@@ -1515,28 +1513,107 @@ def m_iter_next(ex, state, frame, dest, args, ret_block, work, callee):
         if not outs:
             raise Inconclusive("iterator: no feasible continuation")
         ex.stats["forks"] += len(outs) - 1
-
-        def apply(st, fr, which, c):
+        alts = []
+        for k, (which, c) in enumerate(outs):
+            st = state if k == len(outs) - 1 else state.clone()
             st.pc.append(c)
             if which == "some":
                 elem = Sym(it.base.path + (("idx", i),), elem_ty(it.base.ty))
-                if isinstance(r, LRef):
-                    ex.write_place(st, ex.frame_by_id(st, r.fid), r.place, IterS(it.base, i + 1, it.enumerate))
                 val = Agg("tuple", None, None, [i, elem]) if it.enumerate else elem
-                ex.write_place(st, fr, dest, Agg("adt", "Option", "Some", [val]))
+                alts.append((st, Agg("adt", "Option", "Some", [val]), IterS(it.base, i + 1, it.enumerate)))
             else:
-                ex.write_place(st, fr, dest, Agg("adt", "Option", "None", []))
-            fr.block = ret_block
-        for which, c in outs[1:]:
-            s2 = state.clone()
-            apply(s2, s2.frames[-1], which, c)
-            work.append(s2)
-        apply(state, frame, outs[0][0], outs[0][1])
-        return "cont"
+                alts.append((st, Agg("adt", "Option", "None", []), it))
+        return alts
+    if isinstance(it, FMap):
+        alts = []
+        todo = [(state, it.it)]
+        while todo:
+            st, inner = todo.pop()
+            for st1, opt, inner1 in iter_next_alts(ex, st, inner):
+                if opt.variant == "None":
+                    alts.append((st1, opt, FMap(inner1, it.closure)))
+                    continue
+                for pc, mem, val, evs in ex.eval_closure_all(st1, it.closure, [opt.fields[0]]):
+                    st2 = st1.clone()
+                    st2.pc = list(pc)
+                    st2.mem = dict(mem)
+                    st2.events = st2.events + list(evs)
+                    if not (isinstance(val, Agg) and val.kind == "adt" and val.name == "Option"):
+                        raise Inconclusive("filter_map closure returned %r" % (val,))
+                    if val.variant == "Some":
+                        alts.append((st2, val, FMap(inner1, it.closure)))
+                    else:
+                        todo.append((st2, inner1))
+        return alts
     if isinstance(it, Opaque):
         # an iterator the executor knows nothing about: treat it as exhausted-or-not without bound -> give up on this path
         raise Inconclusive("iteration over an opaque iterator (%s)" % (it.origin,))
     raise Inconclusive("next on %r" % (it,))
+
+
+def _finish_iter_alts(ex, r, dest, ret_block, work, alts):
+    if not alts:
+        raise Inconclusive("iterator: no feasible continuation")
+    for st, opt, it2 in alts:
+        fr = st.frames[-1]
+        if isinstance(r, LRef):
+            ex.write_place(st, ex.frame_by_id(st, r.fid), r.place, it2)
+        ex.write_place(st, fr, dest, opt)
+        fr.block = ret_block
+        work.append(st)
+    return "done"
+
+
+@model("Iterator::Iter::next")
+def m_iter_next(ex, state, frame, dest, args, ret_block, work, callee):
+    r = args[0]
+    it = _val(ex, state, r)
+    return _finish_iter_alts(ex, r, dest, ret_block, work, iter_next_alts(ex, state, it))
+
+
+@model("Iterator::Iter::nth")
+def m_iter_nth(ex, state, frame, dest, args, ret_block, work, callee):
+    r = args[0]
+    it = _val(ex, state, r)
+    k = args[1]
+    if not isinstance(k, int) or k > 8:
+        raise Inconclusive("nth with a non-constant index")
+    cur = [(state, None, it)]
+    for step in range(k + 1):
+        nxt = []
+        for st, opt, itv in cur:
+            if opt is not None and opt.variant == "None":
+                nxt.append((st, opt, itv))
+                continue
+            nxt += iter_next_alts(ex, st, itv)
+        cur = nxt
+    return _finish_iter_alts(ex, r, dest, ret_block, work, cur)
+
+
+@model("Iterator::Iter::count")
+def m_iter_count(ex, state, frame, dest, args, ret_block, work, callee):
+    it = _val(ex, state, args[0])
+    cur = [(state, 0, it)]
+    done = []
+    for step in range(ex.slice_bound + 2):
+        nxt = []
+        for st, n, itv in cur:
+            for st1, opt, it1 in iter_next_alts(ex, st, itv):
+                if opt.variant == "None":
+                    done.append((st1, n))
+                else:
+                    nxt.append((st1, n + 1, it1))
+        cur = nxt
+        if not cur:
+            break
+    if cur:
+        raise Inconclusive("count(): iterator longer than the slice bound")
+    for st, n in done:
+        fr = st.frames[-1]
+        ex.write_place(st, fr, dest, n)
+        fr.block = ret_block
+        work.append(st)
+    return "done"
 
 
 @model("RepAsIteratorExt::Vec::quote_into_iter", "RepAsIteratorExt::slice::quote_into_iter")
@@ -1673,7 +1750,17 @@ def m_and_then(ex, state, frame, dest, args, ret_block, work, callee):
         if v.variant == "None":
             return _ret(ex, state, frame, dest, Agg("adt", "Option", "None", []), ret_block)
         if is_map:
-            raise Inconclusive("Option::map on local value")
+            alts = ex.eval_closure_all(state, args[1], [v.fields[0]])
+            for pc, mem, val, evs in alts:
+                st2 = state.clone()
+                st2.pc = list(pc)
+                st2.mem = dict(mem)
+                st2.events = st2.events + list(evs)
+                fr = st2.frames[-1]
+                ex.write_place(st2, fr, dest, Agg("adt", "Option", "Some", [val]))
+                fr.block = ret_block
+                work.append(st2)
+            return "done"
         ex.call_closure(state, frame, args[1], [Agg("tuple", None, None, [v.fields[0]])] if False else [v.fields[0]], dest, ret_block)
         return "cont"
     if isinstance(v, Sym):
